@@ -27,7 +27,7 @@ pub fn property() -> Property {
             "the reference server's view of the plaintext (frame sequence); a packet = the frames up to and including its padding frame (all sizes are chosen so that every packet below stop ends in exactly one padding frame)",
             "one child process per history; kernel loopback",
         ],
-        families: vec![(Box::new(PushFam), 60, 400), (Box::new(ServerPushFam), 2_000, 16_000)],
+        families: vec![(Box::new(PushFam), 200, 4_000), (Box::new(ServerPushFam), 20_000, 1_000_000)],
     }
 }
 
